@@ -70,6 +70,45 @@ def check_equiv(inp):
     return None
 
 
+def wires(spec):
+    """what a program computes, as far as the equivalence check may identify programs: per mode, the sequence of
+    operations touching it (class, parameters, inverse flag, modes - as a set for gates that are symmetric in them)"""
+    out = {}
+    for (name, params, modes, dagger, select) in spec:
+        key = (name, tuple(params), bool(dagger), tuple(modes) if name in ("BSgate", "CXgate") else tuple(sorted(modes)))
+        for m in modes:
+            out.setdefault(m, []).append(key)
+    return out
+
+
+MCMDS = [("Sgate", (0.3, 0.0), (0,), False, None), ("Sgate", (0.3, 0.0), (0,), True, None),
+         ("Dgate", (0.4, 0.0), (0,), False, None), ("Dgate", (0.4, 0.0), (1,), True, None), ("Dgate", (0.4, 0.0), (1,), False, None),
+         ("Rgate", (0.4,), (1,), True, None), ("BSgate", (0.3, 0.1), (0, 1), False, None), ("BSgate", (0.3, 0.1), (0, 1), True, None),
+         ("CXgate", (0.3,), (1, 2), True, None), ("CXgate", (0.3,), (1, 2), False, None)]
+
+
+def battery_multi():
+    progs = [[MCMDS[i] for i in s] for L in (2, 3) for s in itertools.product(range(len(MCMDS)), repeat=L) if L == 2 or s[0] < 3]
+    for sa in progs:
+        for sb in progs:
+            if len(sa) == len(sb) and sorted(c[0] for c in sa) == sorted(c[0] for c in sb):
+                yield (sa, sb)
+
+
+def check_multi(inp):
+    sa, sb = inp
+    pa, pb = build(sa), build(sb)
+    eq = pa.equivalence(pb)
+    if eq and wires(sa) != wires(sb):
+        return f"programs {sa} and {sb} are reported equivalent but apply different operations"
+    if not eq and wires(sa) == wires(sb):
+        return f"programs {sa} and {sb} differ only in the order of commands on disjoint modes but are reported inequivalent"
+    return None
+
+
 def replay(kind, obligation, I):
+    if kind == "multi":
+        from native.common import run_replay
+        return run_replay(obligation, None, check_multi, battery_multi())
     from native.common import run_replay
     run_replay(obligation, None, check_eq if kind == "eq" else check_equiv, battery())
